@@ -45,18 +45,33 @@ def build_target(spec):
 
 
 def ties_module(t):
-    """A module in which n memoisation candidates (patterns containing symbols) tie exactly in use count and complexity:
+    """A module with n pairs (Q, P = Q applied to something) of memoisation candidates containing symbols, P claimed a times
+    and Q b more times for seeded small (a, b): some pairs tie exactly in the optimiser's score (uses x complexity), and
     whatever breaks the tie decides the Save/Load layout of the optimised output."""
+    import random
     from proof_generation.proof import ProofExp
     from proof_generation.pattern import App, Implies, Symbol
     from proof_generation.proofs.propositional import Propositional
+    rng = random.Random(t['salt'])
     mod = ProofExp(axioms=[Implies(Symbol('tie_ax'), Symbol('tie_ax'))])
     lib = mod.import_module(Propositional())
+    seen = set()
+
+    def claim(x, k):
+        th = lib.imp_refl(x)
+        for _ in range(k):
+            th = lib.imp_provable(Symbol('w%d' % len(seen)), th)      # distinct conclusions
+        if th.conc not in seen:
+            seen.add(th.conc)
+            mod.add_claim(th.conc)
+            mod.add_proof_expression(th)
     for i in range(t['n']):
-        a = App(Symbol('s%d_%d' % (t['salt'], i)), Symbol('r%d_%d' % (t['salt'], (i * 7) % 11)))
-        th = lib.imp_refl(a) if i % 2 == 0 else lib.imp_provable(a, lib.imp_refl(a))
-        mod.add_claim(th.conc)
-        mod.add_proof_expression(th)
+        q = App(Symbol('s%d_%d' % (t['salt'], i)), Symbol('r%d_%d' % (t['salt'], i)))
+        tail = Symbol('t%d' % i) if rng.random() < 0.5 else App(Symbol('t%d' % i), Symbol('u%d' % i))
+        p_ = App(q, tail)
+        a, b = rng.randint(1, 4), rng.randint(0, 4)
+        for k in range(a): claim(p_, k)
+        for k in range(b): claim(q, k)
     return mod
 
 
